@@ -108,9 +108,10 @@ def gen_heading(rng, doc, level=None, force_servings=None):
     doc.add(lines + [""])
 
 
-def recipe_block_lines(rng, text, style, container):
-    """returns (lines, index of first code line within lines, prefix removed from each code line)"""
-    code = text.split("\n")
+def recipe_block_lines(rng, text, style, container, extra=0):
+    """returns (lines, index of first code line within lines, prefix removed from each code line);
+    extra: additional indentation of the recipe text itself (part of the block's content)"""
+    code = [(" " * extra + l) if l.strip() else l for l in text.split("\n")]
     if style == "indented":
         body = ["    " + l if l.strip() else rng.choice(["", "    "]) for l in code]
         first, strip = 0, "    "
